@@ -9,7 +9,7 @@ from z3 import And, Or, Not, Implies, If, IntVal, BoolVal, Const, Function, Leng
 from . import runtime
 from .symx import (Exec, St, VC, Val, I, B, SeqV, SeqI, NONE, Tup, StrLit, TextV, CharV, Opaque, OutOfSubset, LoopSpec)
 from .solve import discharge
-from .fragver import RoleError as _RoleError
+from .fragver import RoleError as _RoleError, contract_binding_failure
 
 
 class Rope:
@@ -211,8 +211,11 @@ def verify_rt(contract, cfg, both=False):
                     res['verdicts'].append({'obligation': 'bounded:contract-on-all-small-inputs', 'kind': 'post', 'verdict': 'sat',
                                             'solver': 'native-enumeration', 'time_s': 0.0, 'path': None, 'model': None,
                                             'replay': {'reproduced': True, 'violated': bad[:5], 'bound': bound, 'tried': tried}})
-    except (OutOfSubset, _RoleError) as e:
-        res['error'] = ('out-of-subset' if isinstance(e, OutOfSubset) else 'role', str(e))
+    except Exception as e:
+        if not isinstance(e, (OutOfSubset, _RoleError)) and not contract_binding_failure(e):
+            raise
+        res['error'] = ('out-of-subset' if isinstance(e, OutOfSubset) else 'role',
+                        str(e) if isinstance(e, (OutOfSubset, _RoleError)) else f'the contract cannot bind its roles to this code ({type(e).__name__}: {e})')
         # the function left the verifier's subset: a BOUNDED stand-in (the contract evaluated natively on all small
         # inputs) may still refute it with a concrete input; it never counts as proved
         b = getattr(contract, 'bounded', None)
